@@ -14,6 +14,7 @@ import json
 import os
 import pwd
 import subprocess
+import time
 
 from vlib import preload
 from vlib.common import HARNESS
@@ -133,6 +134,79 @@ def has_pct(line):
     return any(f != "-" and b"%" in bytes.fromhex(f) for f in fields)
 
 
+def fmt_branches(line, b):
+    """which token kinds of the substitution an input line exercises (coverage report only)"""
+    def hit(k):
+        b[k] = b.get(k, 0) + 1
+    w = line.split()
+    if w[0] == "fmt":
+        mem = bytes.fromhex(w[4]) if w[4] != "-" else b""
+        a = cstr(mem)
+        if a is None:
+            hit("fmt:no terminator in the readable memory")
+            return
+        args = [a]
+        if len(mem) > len(a) + 1:
+            hit("fmt:memory behind the terminator")
+    else:
+        args = [bytes.fromhex(x) if x != "-" else b"" for x in w[6:]]
+        hit("args:%d arguments" % min(len(args), 4))
+    for a in args:
+        if a == b"":
+            hit("token:empty argument")
+        i, lit = 0, False
+        while i < len(a):
+            if a[i] == 0x25:
+                if i + 1 >= len(a):
+                    hit("token:lone trailing %")
+                    break
+                hit({0x68: "token:%h", 0x75: "token:%u", 0x6e: "token:%n", 0x25: "token:%%"}.get(a[i + 1], "token:unknown %x"))
+                i += 2
+            else:
+                lit = True
+                i += 1
+        if lit:
+            hit("token:literal text")
+        if b"%%h" in a or b"%%u" in a or b"%%n" in a:
+            hit("token:%% directly before h/u/n")
+
+
+def reg_branches(c, m, s, b):
+    """which branches of the word splitter / registry / defaults chain a registry case exercises"""
+    def hit(k):
+        b[k] = b.get(k, 0) + 1
+    for w in c["words"]:
+        if w.count("[") >= 2:
+            hit("word:two bracket pairs")
+        if "::" in w:
+            hit("word:'::' (no type)")
+        if "@" in w and ":" in w and w.index(":") > w.index("@"):
+            hit("word:':' behind '@' (malformed)")
+        elif "@" in w and ":" in w:
+            hit("word:type:user@hosts")
+        elif "@" in w:
+            hit("word:user@hosts")
+        elif ":" in w:
+            hit("word:type:hosts")
+        else:
+            hit("word:plain")
+        if "," in w:
+            hit("word:comma inside brackets")
+    hit("default transport from " + ("-R" if c["R"] is not None else "PDSH_RCMD_TYPE" if c["envtype"] is not None else "rank list"))
+    if c["R"] is not None and c["envtype"] is not None:
+        hit("-R over PDSH_RCMD_TYPE")
+    if c["l"] is not None:
+        hit("-l given")
+    if c["argv"].count("-l") > 1:
+        hit("-l given twice")
+    if c["argv"].count("-w") > 1:
+        hit("several -w")
+    if m == "fatal":
+        hit("run refused (malformed word / unknown module)")
+    elif any(x.startswith("~|") for x in m.split()[1:]):
+        hit("host without any transport (cancelled)")
+
+
 def exec_view(ans):
     """what execvp sees of an `ok A0 A1 ...` answer: the array up to the first NULL"""
     out = []
@@ -185,6 +259,8 @@ def part_a(ctx, cov, dist, rng, only=None):
         for c, a, m, s in zip(cases, ans, mlines, slines):
             cov["evaluations"] += 1
             dist["fmt" if c.startswith("fmt") else "args"] += 1
+            if exe == exes[0][0]:
+                fmt_branches(c, dist["branches"])
             if a != m:
                 ctx.disagreement("format model vs pipecmd.c (%s)" % name, "`%s`: impl `%s` model `%s`" % (c[:200], a[:200], m[:200]),
                                  {"line": c})
@@ -260,6 +336,25 @@ TWO_BR = ["f[1-2]-[0-1]", "g[0-1]x[2-3]"]
 USERS = ["u1", "u2", "bob", "root", "x_y"]
 
 
+def gen_hostexpr(rng):
+    """host expressions over a few stems and a small set of numbers, so that names that are string prefixes
+    of one another (n1/n10/n100, web/web1, a/ab/a1), zero-padded twins (n1/n01) and overlapping ranges are
+    the normal case rather than an accident"""
+    base = rng.choice(["n", "n", "h", "k", "web", "a", "ab"])
+    nums = ["1", "2", "3", "9", "10", "11", "12", "100", "01", "02"]
+    r = rng.random()
+    if r < 0.15 and base in ("web", "a", "ab"):
+        return base
+    if r < 0.5:
+        return base + rng.choice(nums)
+    if r < 0.78:
+        lo = rng.choice([1, 1, 2, 9, 10, 99])
+        return "%s[%d-%d]" % (base, lo, lo + rng.randrange(0, 3))
+    if r < 0.92:
+        return "%s[%s]" % (base, ",".join(rng.sample(["1", "2", "10", "11", "3-4", "10-12", "100", "01"], rng.choice([2, 3]))))
+    return "%s[%s]" % (base, rng.choice(["01-03", "08-10", "1-2"]))
+
+
 def gen_reg_case(rng, transports):
     c = {"loaded": None, "argv": [], "env": {}, "words": [], "excl": [], "l": None, "R": None, "envtype": None}
     extra = rng.sample(["r04", "r06", "r07", "r08"], rng.choice([0, 1, 1, 2, 3]))
@@ -270,7 +365,8 @@ def gen_reg_case(rng, transports):
     cur = []
     bad = rng.random() < 0.06
     for k in range(nwords):
-        he = rng.choice(HOSTEXPRS) if rng.random() > 0.04 else rng.choice(TWO_BR)
+        r0 = rng.random()
+        he = rng.choice(TWO_BR) if r0 < 0.04 else (rng.choice(HOSTEXPRS) if r0 < 0.3 else gen_hostexpr(rng))
         r = rng.random()
         if r < 0.35:
             w = he
@@ -376,7 +472,7 @@ def part_c(ctx, cov, dist, rng, repo, only=None):
         margs.append("reexpand")
         ctx.log("hostlist_register_rcmd re-expands the names (F09-2BR repaired): model runs as `reexpand`")
     dist["reg_variant"] = " ".join(margs)
-    n = 3000 if ctx.quick() else 20000
+    n = 2000 if ctx.quick() else 20000
     recs = []
     for c in ((gen_reg_case(rng, transports) for _ in range(n)) if only is None else only):
         files = [pool.by_id[i].file for i in c["loaded_ids"]]
@@ -404,6 +500,7 @@ def part_c(ctx, cov, dist, rng, repo, only=None):
     for (c, r, line, targets), m, s in zip(recs, ml, sl):
         cov["evaluations"] += 1
         dist["reg"] += 1
+        reg_branches(c, m, s, dist["branches"])
         log = [l.split() for l in r["log"] if l.startswith("rcmd ")]
         log.sort(key=lambda w: int(w[6]))
         obs = "ok" + "".join(" %s|%s|%s|%s" % (hx(w[2]), w[3], w[5], w[6]) for w in log)
@@ -433,6 +530,18 @@ def part_c(ctx, cov, dist, rng, repo, only=None):
             dist["reg_nodomain"] += 1
             continue
         key = (tuple(c["words"]), c["l"], c["R"], c["envtype"], tuple(c["excl"]))
+        # coverage: two targets, one name a proper string prefix of the other, that must be contacted differently
+        want = {}
+        for x in s.split()[1:]:
+            t_, h_, u_, _ = x.split("|")
+            want[unhx(h_)] = (t_, u_)
+        hs = sorted(want)
+        if any(a != b and b.startswith(a) and want[a] != want[b] for a in hs for b in hs):
+            dist["reg_prefix_pair_differs"] = dist.get("reg_prefix_pair_differs", 0) + 1
+        if len(set(targets)) < len(targets):
+            dist["reg_repeated_host"] = dist.get("reg_repeated_host", 0) + 1
+        if c["excl"]:
+            dist["reg_excluded"] = dist.get("reg_excluded", 0) + 1
         annotated = sum(1 for w in c["words"] if "@" in w or ":" in w)
         if annotated >= 1 and len(set(targets)) < len(targets) or annotated >= 2:
             distinct.add(key)
@@ -459,7 +568,7 @@ def part_b(ctx, cov, dist, rng, repo, variant, only=None):
         ctx.disagreement("harness build argdump", p.stderr.decode()[-500:])
         return
     exe = os.path.join(repo, "src/pdsh/pdsh")
-    n = 500 if ctx.quick() else 4000
+    n = 350 if ctx.quick() else 4000
     pieces = ["", "a", "%h", "%", "x%", "%%", "%%%", "%u-%n", "%x%y", "--opt=%h", "a b", "%%h", "%h%u%n%%", "-n", "%n%"]
     env = {"PATH": "/usr/bin:/bin", "ZV": "q%h"}
     envblock = b"".join(("%s=%s" % kv).encode() + b"\0" for kv in env.items())
@@ -597,7 +706,7 @@ class RshPeer:
                         back.close()
                         back = None
             while data.count(b"\0") < 4:
-                b = c.recv(1)
+                b = c.recv(65536)
                 if not b:
                     break
                 data += b
@@ -632,7 +741,7 @@ def part_d(ctx, cov, dist, rng, repo, only=None):
         return
     exe = os.path.join(repo, "src/pdsh/pdsh")
     luser = pwd.getpwuid(os.getuid()).pw_name
-    n = 40 if ctx.quick() else 400
+    n = 60 if ctx.quick() else 500
     dist["rsh"] = 0
     nviol0 = len(ctx.violations)
     try:
@@ -649,6 +758,13 @@ def part_d(ctx, cov, dist, rng, repo, only=None):
                     want[a] = None
             l = rng.choice([None, None, "bob", "u2"])
             cmd = rng.choice([["true"], ["echo", "a  b", "%h%%"], ["sh", "-c", "x;y  z"], ["uname", "-a", "%"], ["c", "", "d"]])
+            if rng.random() < 0.45:
+                # long commands: the whole request (port, users, command) straddles the usual buffer sizes
+                total = rng.choice([1020, 1024, 2040, 2047, 2048, 2049, 2060, 4095, 4096, 4097, 8191, 8192, 8193,
+                                    20000, 65000]) + rng.randrange(-3, 4)
+                base = len(" ".join(cmd)) + 1
+                pad = max(1, total - base - 16)
+                cmd = cmd + [("y" * (pad - 1)) + "Z"]
             return {"addrs": addrs, "words": words, "want": want, "l": l, "cmd": cmd}
         for g in ((gen() for _ in range(n)) if only is None else only):
             if len(ctx.violations) - nviol0 >= 3:
@@ -673,8 +789,8 @@ def part_d(ctx, cov, dist, rng, repo, only=None):
                 cov["evaluations"] += 1
                 dist["rsh"] += 1
                 if not pl.startswith("ok "):
-                    ctx.offender("rsh:malformed-request", "the rsh request for %s is not four NUL-terminated fields: %r" % (
-                        addr, data), dict(case, request=data.hex()))
+                    ctx.offender("rsh:malformed-request", "the rsh request for %s (%d bytes) is not four NUL-terminated "
+                                 "fields: %r ..." % (addr, len(data), data[:80]), dict(case, request_len=len(data)))
                     continue
                 pf, lu, ru, cm = [unhx(x) for x in pl.split()[1:]]
                 exp_ru = want.get(addr) or l or luser
@@ -683,7 +799,13 @@ def part_d(ctx, cov, dist, rng, repo, only=None):
                 if not (okport and lu == luser and ru == exp_ru and cm == exp_cmd):
                     ctx.offender("rsh:request", "rsh request for %s is (port %r, local %r, remote %r, command %r, stderr "
                                                 "channel connected: %s); specified (a listening port, %r, %r, %r)" % (
-                        addr, pf, lu, ru, cm, backok, luser, exp_ru, exp_cmd), dict(case, request=data.hex()))
+                        addr, pf, lu, ru, cm[:60] + ("..." if len(cm) > 60 else ""), backok, luser, exp_ru,
+                        exp_cmd[:60] + ("..." if len(exp_cmd) > 60 else "")), dict(case, request_len=len(data), command_len=len(cm),
+                                                                                    expected_command_len=len(exp_cmd)))
+                dist.setdefault("rsh_request_len", {})
+                bucket = "<=1024" if len(data) <= 1024 else "<=2048" if len(data) <= 2048 else "<=4096" if len(data) <= 4096 \
+                    else "<=8192" if len(data) <= 8192 else ">8192"
+                dist["rsh_request_len"][bucket] = dist["rsh_request_len"].get(bucket, 0) + 1
                 # correspondence with the model of xrcmd's write order
                 ml = ctx.model("rcmd", "writes %s %s %s %s\n" % (pf if pf else "none", hx(luser), hx(exp_ru), hx(exp_cmd)),
                                args=["model", "unchanged"])
@@ -695,6 +817,90 @@ def part_d(ctx, cov, dist, rng, repo, only=None):
                     ctx.offender("rsh:no-connection", "target %s was not contacted through rsh" % a, case)
     finally:
         peer.close()
+
+
+# ------------------------------------------------------------------------------------- (e) ssh argument vector
+
+def part_e(ctx, cov, dist, rng, repo, variant, only=None):
+    """src/modules/sshcmd.c is not built in this configuration: compile it per run from the tree under test into
+    its own module directory and give it a fake `ssh` (the argv dumper) first in PATH"""
+    from vlib.common import REPO
+    pool = preload.Pool(ctx)
+    exe = os.path.join(repo, "src/pdsh/pdsh")
+    sshdir = os.path.join(ctx.scratch, "sshmods")
+    fakebin = os.path.join(ctx.scratch, "fakebin")
+    os.makedirs(sshdir, exist_ok=True)
+    os.makedirs(fakebin, exist_ok=True)
+    os.chmod(ctx.scratch, 0o755)
+    p = subprocess.run(["gcc", "-shared", "-fPIC", "-O1", "-w", "-DHAVE_CONFIG_H", "-D_GNU_SOURCE", "-I" + REPO,
+                        "-I" + REPO + "/src/pdsh", "-I" + REPO + "/src/common", REPO + "/src/modules/sshcmd.c", "-o",
+                        os.path.join(sshdir, "sshcmd.so")], stderr=subprocess.PIPE)
+    q = subprocess.run(["gcc", "-O1", "-o", os.path.join(fakebin, "ssh"), os.path.join(HARNESS, "argdump.c")],
+                       stderr=subprocess.PIPE)
+    if p.returncode != 0 or q.returncode != 0:
+        ctx.disagreement("harness build sshcmd.so / fake ssh", (p.stderr + q.stderr).decode()[-600:])
+        return
+    if not os.path.exists(pool.shim) and not pool.build():
+        return
+    luser = pwd.getpwuid(1000).pw_name
+    n = 150 if ctx.quick() else 1500
+    dist["ssh"] = 0
+    pieces = ["echo", "it's", "a\\", "back\\\\", "%h", "100%", '"q"', "%%h", "%x", "$(x)", "a b", "-n", "%u@%h", "%", "",
+              "x%n", "'", "\\"]
+    templates = [None, None, "-x %h", "-l %u -p 22 %h", "-o [a b] %h", "%%h -x", "-x", "-i%u_key %h", "-a  -x   %h",
+                 "-l%u", "x%h%h"]
+    appends = [None, None, None, "-v", "-o X=%n"]
+
+    def gen():
+        hosts = rng.sample(["n1", "n10", "web", "web1"], rng.choice([1, 2]))
+        return {"ssh": True, "hosts": hosts, "user": rng.choice([None, "bob", luser]), "args": rng.choice(templates),
+                "append": rng.choice(appends),
+                "words": [rng.choice(pieces) for _ in range(rng.choice([1, 2, 3, 4]))]}
+    lines, recs = [], []
+    for g in ((gen() for _ in range(n)) if only is None else only):
+        words = g["words"]
+        if words[0].startswith("-"):
+            words = ["echo"] + words
+            g["words"] = words
+        argv = ["-R", "ssh", "-w", ",".join(g["hosts"])] + (["-l", g["user"]] if g["user"] else []) + words
+        env = {"PATH": fakebin + ":/usr/bin:/bin"}
+        if g["args"] is not None:
+            env["PDSH_SSH_ARGS"] = g["args"]
+        if g["append"] is not None:
+            env["PDSH_SSH_ARGS_APPEND"] = g["append"]
+        r = preload.run_pdsh(pool, exe, argv, moddir_env=sshdir, fake_dir=sshdir, dirlist=["sshcmd.so"], extra_env=env,
+                             argv0=exe)
+        got = {}
+        for l in r["out"].splitlines():
+            if ": argv " in l:
+                h, rest = l.split(": argv ", 1)
+                got[h] = rest.split()[1:]
+        opt = lambda v: "~" if v is None else hx(v)
+        for rank, h in enumerate(g["hosts"]):
+            lines.append("ssh %s %s %s %d 0 %s %s ~ %s %s" % (hx(h), hx(luser), hx(g["user"] or luser), rank, opt(g["append"]),
+                                                            opt(g["args"]), hx(" ".join(words)), " ".join(hx(w) for w in words)))
+            recs.append((g, argv, h, got.get(h), r))
+    ml = ctx.model("rcmd", "".join(l + "\n" for l in lines), args=["model", variant]) if lines else []
+    for (g, argv, h, got, r), m in zip(recs, ml):
+        cov["evaluations"] += 1
+        dist["ssh"] += 1
+        case = {"argv": argv, "PDSH_SSH_ARGS": g["args"], "PDSH_SSH_ARGS_APPEND": g["append"], "host": h, "gen": g}
+        if got is None:
+            ctx.offender("ssh:no-output", "the fake ssh was not started for %s (rc %s): %s" % (h, r["rc"], r["err"][-200:]), case)
+            continue
+        if m == "ub":
+            continue
+        if got != m.split()[1:]:
+            ctx.disagreement("ssh model vs sshcmd.c", "ssh saw `%s`, model `%s`" % ([unhx(x) for x in got],
+                                                                                  [unhx(x) for x in m.split()[1:]]), case)
+        # the command text must reach the transport unchanged: the last arguments are the command words
+        want = [hx(w) for w in g["words"]]
+        if got[-len(want):] != want:
+            esc = any(x in w for w in g["words"] for x in ("%h", "%u", "%n", "%%"))
+            sig = "ssh:percent-in-command" if esc else "ssh:mismatch"
+            dist["offenders"][sig] = dist["offenders"].get(sig, 0) + 1
+            ctx.offender(sig, "the command words reach ssh as %s instead of %s" % (
+                [unhx(x) for x in got[-len(want):]], g["words"]), case)
 
 
 def replay_items(ctx):
@@ -712,10 +918,12 @@ def replay_items(ctx):
                     items.append(json.loads(txt.split(":: case=", 1)[1]))
                 except ValueError:
                     ctx.log("replay: a recorded case is truncated in %s, skipped" % ctx.replay)
-    ra, rb, rc_, rd = [], [], [], []
+    ra, rb, rc_, rd, re_ = [], [], [], [], []
     for it in items:
         g = it.get("gen")
-        if it.get("line") and it["line"].split()[0] in ("fmt", "args"):
+        if g and g.get("ssh"):
+            re_.append(g)
+        elif it.get("line") and it["line"].split()[0] in ("fmt", "args"):
             ra.append(it["line"])
         elif g and "addrs" in g:
             rd.append(g)
@@ -730,9 +938,9 @@ def replay_items(ctx):
             if k is not None:
                 rb.append({"hosts": av[av.index("-w") + 1].split(","), "user": av[av.index("-l") + 1] if "-l" in av[:k] else None,
                            "args": av[k + 1:]})
-    if not (ra or rb or rc_ or rd):
+    if not (ra or rb or rc_ or rd or re_):
         ctx.broken.append(("C-BROKEN", "replay", "no replayable case in " + str(ctx.replay)))
-    return ra, rb, rc_, rd
+    return ra, rb, rc_, rd, re_
 
 
 def run(ctx):
@@ -749,12 +957,13 @@ def run(ctx):
                    "malformed words, unknown types, with 3-6 fake transports loaded; (d) pdsh -R rsh against a scripted "
                    "peer on loopback recording the request bytes; non-trivial = argument containing "
                    "'%' / command line with two annotated words or an annotated word over a repeated host; distinct by text"}
-    dist = {"fmt": 0, "args": 0, "cli": 0, "reg": 0, "reg_fatal": 0, "reg_nodomain": 0, "nodomain": 0, "offenders": {}}
+    dist = {"fmt": 0, "args": 0, "cli": 0, "reg": 0, "reg_fatal": 0, "reg_nodomain": 0, "nodomain": 0, "offenders": {},
+            "branches": {}}
     if getattr(ctx, "replay", None):
-        ra, rb, rc_, rd = replay_items(ctx)
+        ra, rb, rc_, rd, re_ = replay_items(ctx)
         cov["rule"] = "replay of %s: exactly the recorded case(s)" % ctx.replay
         variant = part_a(ctx, cov, dist, rng, only=ra)
-        repo = ctx.repo_build() if (rb or rc_ or rd) else None
+        repo = ctx.repo_build() if (rb or rc_ or rd or re_) else None
         if repo is not None and variant is not None:
             if rb:
                 part_b(ctx, cov, dist, rng, repo, variant, only=rb)
@@ -762,13 +971,19 @@ def run(ctx):
                 part_c(ctx, cov, dist, rng, repo, only=rc_)
             if rd:
                 part_d(ctx, cov, dist, rng, repo, only=rd)
+            if re_:
+                part_e(ctx, cov, dist, rng, repo, variant, only=re_)
     else:
         variant = part_a(ctx, cov, dist, rng)
         repo = ctx.repo_build()
         if repo is not None and variant is not None:
-            part_b(ctx, cov, dist, rng, repo, variant)
-            part_c(ctx, cov, dist, rng, repo)
-            part_d(ctx, cov, dist, rng, repo)
+            for name, f in (("-R exec", lambda: part_b(ctx, cov, dist, rng, repo, variant)),
+                            ("registry", lambda: part_c(ctx, cov, dist, rng, repo)),
+                            ("rsh wire", lambda: part_d(ctx, cov, dist, rng, repo)),
+                            ("ssh argv", lambda: part_e(ctx, cov, dist, rng, repo, variant))):
+                t0 = time.time()
+                f()
+                dist.setdefault("wall_s", {})[name] = round(time.time() - t0, 1)
     cov["distribution"] = dist
     return ctx.finish(
         LEVEL, cov,
